@@ -327,6 +327,10 @@ def _main(prop: str, tier: str, seed: int, a: Any) -> int:
 			'samples': samples + [s for x in extras for s in x.samples[:2]],
 			'slowest': [{'obligation': r.ob.name, 'seconds': round(r.res.seconds, 2), 'backend': r.res.backend} for r in sorted(rep.results, key=lambda r: -r.res.seconds)[:5]],
 			'explanation': getattr(mod, 'EXPLANATION', ''),
+			'evaluations': sum(b['cases'] for b in bounded) + sum(x.cases for x in extras),
+			'distinct_nontrivial': sum(b.get('contract_held', 0) for b in bounded) + sum(getattr(x, 'distinct', x.cases) for x in extras),
+			'rule': getattr(mod, 'RULE', 'bounded twin: generated inputs on which the native reading of the contract is evaluated against the real function; non-trivial = precondition holds and the call completes'),
+			'exhaustive': bool(extras) and all(x.exhaustive for x in extras) and not contracts,
 		},
 		'assumptions': rep.assumptions + getattr(mod, 'ASSUMPTIONS', []),
 		'wall_s': round(time.time() - t_start, 2),
